@@ -235,3 +235,60 @@ async fn kf1b_expired_probe_pop_skips_bytes() {
     for (_, p) in by_seq { stream.extend_from_slice(&p); }
     eprintln!("TRIAGE kf1b stream_len={} prefix_ok={}", stream.len(), data.starts_with(&stream));
 }
+
+// KF11 candidate: ACK for segmented-but-unsent data near the 16-bit wrap + SACK => calc_pipe range_mut(..take) out of range?
+#[tokio::test]
+async fn kf11_ack_beyond_sent_near_wrap() {
+    use crate::stream_dispatch::{StreamArgs, tests::make_test_vsock_args};
+    use crate::test_util::env::MockUtpEnvironment;
+    use crate::traits::UtpEnvironment;
+    use std::time::Duration;
+    setup_test_logging();
+    let env = MockUtpEnvironment::new();
+    let remote_ack = UtpHeader {
+        htype: ST_STATE,
+        seq_nr: 1.into(),
+        ack_nr: 64499.into(),
+        wnd_size: 1024 * 1024,
+        ..Default::default()
+    };
+    let now = env.now();
+    env.increment_now(Duration::from_secs(1));
+    let args = StreamArgs::new_outgoing(&remote_ack, now, env.now());
+    let mut t = make_test_vsock_args(
+        SocketOpts {
+            vsock_tx_bufsize_bytes_initial: Some(non_zero_const!(1024 * 1024)),
+            link_mtu: Some(non_zero_const!(576)),
+            ..Default::default()
+        },
+        args,
+        env,
+    );
+    let (_r, mut w) = t.stream.take().unwrap().split();
+    let data = vec![b'x'; 1024 * 1024];
+    w.write_all(&data).await.unwrap();
+    t.poll_once_assert_pending().await;
+    let sent = t.take_sent();
+    eprintln!("TRIAGE kf11 first flight: {} packets, first seq={} ; segments queued={}", sent.len(), sent[0].header.seq_nr, t.vsock.user_tx_segments.total_len_packets());
+    // Peer acknowledges data we never sent, in two steps of <= 1024 (so each passes the wrap tolerance),
+    // the first one carrying 3 SACK bits (enters recovery). Both arrive before the next poll.
+    for (step, sack) in [(1000u16, true), (1500u16, false)] {
+        let ack: u16 = 64500u16.wrapping_add(step);
+        t.send_msg(
+            UtpHeader {
+                htype: ST_STATE,
+                seq_nr: 1.into(),
+                ack_nr: ack.into(),
+                wnd_size: 1024 * 1024,
+                extensions: crate::raw::Extensions {
+                    selective_ack: if sack { Some(crate::raw::selective_ack::SelectiveAck::deserialize(&[0b0000_0111, 0, 0, 0])) } else { None },
+                    ..Default::default()
+                },
+                ..Default::default()
+            },
+            "",
+        );
+    }
+    let res = t.poll_once().await;
+    eprintln!("TRIAGE kf11 poll after hostile ack = {res:?}");
+}
